@@ -153,6 +153,13 @@ func (t *T) Replaying() bool { return t.only != "" }
 // canonical form hashed into the case key). run executes the real code and the
 // oracle; it returns an outcome class and nil, or a Fail. run must be
 // re-runnable (fresh objects on every call): failures are re-executed 5 times.
+// MarkIncomplete records that an internal deadline cut an exploration short: the check still exits 0 when nothing
+// was violated, its evidence says exhaustive=false and counts the caps under the given name.
+func (t *T) MarkIncomplete(counter string) {
+	t.sum.Incomplete = true
+	t.Count(counter, 1)
+}
+
 func (t *T) Case(desc string, nontrivial bool, run func() (string, *Fail)) {
 	i := t.idx
 	t.idx++
